@@ -6,6 +6,7 @@ import (
 	"fmt"
 	"go/types"
 	"sort"
+	"strings"
 )
 
 type vkind int
@@ -106,7 +107,7 @@ func (fv *FV) havocAll(e *Env) {
 		comp := "G$" + sanitize(b.name)
 		if fv.keepCounters != nil && !fv.keepCounters[bumpAll] && !fv.keepCounters[b.name] {
 			keep[comp] = fv.heapGet(e, comp, arrSort(sRef, sInt))
-		} else if _, used := fv.compSort[comp]; used {
+		} else if _, used := fv.compSort[comp]; used || fv.contractMentions(b.name) {
 			mono[comp] = fv.heapGet(e, comp, arrSort(sRef, sInt))
 		}
 	}
@@ -324,4 +325,43 @@ func (fv *FV) assume(e *Env, t Term) {
 		return // contract expressions are pure: evaluating them never adds facts
 	}
 	fv.s.assume(implies(e.pc, t))
+}
+
+// contractMentions reports whether the contract of the function being verified
+// names the ghost counter (by its unqualified name) in any clause.
+func (fv *FV) contractMentions(counter string) bool {
+	if fv.u == nil || fv.u.C == nil {
+		return false
+	}
+	if fv.mentionMemo == nil {
+		fv.mentionMemo = map[string]bool{}
+	}
+	if v, ok := fv.mentionMemo[counter]; ok {
+		return v
+	}
+	short := counter
+	if i := strings.LastIndex(counter, "."); i >= 0 {
+		short = counter[i+1:]
+	}
+	c := fv.u.C
+	found := false
+	scan := func(cls []*Clause) {
+		for _, cl := range cls {
+			if strings.Contains(cl.Text, short) {
+				found = true
+			}
+		}
+	}
+	scan(c.Requires)
+	scan(c.Ensures)
+	scan(c.EnsuresLocal)
+	scan(c.Modifies)
+	for _, pc := range c.PreCalls {
+		scan([]*Clause{pc.Cl})
+	}
+	for _, l := range c.Loops {
+		scan(l.Inv)
+	}
+	fv.mentionMemo[counter] = found
+	return found
 }
